@@ -1,0 +1,27 @@
+//go:build verif
+
+// Contracts for contract-based deductive verification (checked by /verif/govc).
+// This file is comment-only and compiled only with the build tag "verif".
+
+package cache
+
+// ---- C10: an unsafe cache file or directory is refused before anything is loaded from it ---------------------------
+// NewCache() checks the cache file, then the cache directory and the container data directory, and only then loads
+// the file. Load() (file reading, JSON) is outside the contracts: ASSUMED to do anything, counted by the ghost loadN.
+// The permission constants are the package's initial values (reject group/other write, 0022).
+//@ ghost loadN int
+//@ assume-contract (*cache).Load
+//@   modifies *
+//@   ensures loadN == old(loadN) + 1
+//@ pure permsInit() bool = cacheFilePerm != nil && cacheDirPerm != nil && dataDirPerm != nil &&
+//@     cacheFilePerm.reject == 0022 && cacheDirPerm.reject == 0022 && dataDirPerm.reject == 0022 &&
+//@     (cacheFilePerm.prefer &^ 0777) == 0 && (cacheDirPerm.prefer &^ 0777) == 0 && (dataDirPerm.prefer &^ 0777) == 0
+// ($t9 is the cache file path filepath.Join(options.CacheDir, "cache") computed by NewCache)
+//@ func NewCache ints=bv64 tags=C10
+//@   requires permsInit()
+//@   # the cache file exists but is a symbolic link, not a regular file, or writable by group/others: refused, not loaded
+//@   ensures[C10] old(fsPresent($t9) && ((fs_mode($t9) & os.ModeType) != 0 || (fs_mode($t9) & 0022) != 0)) ==> result1 != nil && loadN == old(loadN)
+//@   # the cache directory exists but is a symbolic link, not a directory, or writable by group/others: refused, not loaded
+//@   ensures[C10] old(fsPresent(options.CacheDir) && ((fs_mode(options.CacheDir) & os.ModeType) == os.ModeSymlink || (fs_mode(options.CacheDir) & os.ModeDir) == 0 || (fs_mode(options.CacheDir) & 0022) != 0)) ==> result1 != nil && loadN == old(loadN)
+//@   # lstat itself fails on either: refused, not loaded
+//@   ensures[C10] old(fs_staterr($t9) || fs_staterr(options.CacheDir)) ==> result1 != nil && loadN == old(loadN)
